@@ -145,6 +145,7 @@ def check(run):
     _stencils(run, prog, mi)
     _spacing_axes(run, mi)
     _admt(run, prog, mi)
+    _inputs_kept(run, mi)
     from ..cachekey import check_caches
     check_caches(run, [mi], 'C20-K')
 
@@ -251,12 +252,21 @@ class AdmtEval(SymEval):
     def subscript(self, n):
         if isinstance(n.value, ast.Name) and n.value.id == 'derivative_operators' and isinstance(n.slice, ast.Constant):
             return L('OP:' + str(n.slice.value))
+        sl = n.slice.elts if isinstance(n.slice, ast.Tuple) else [n.slice]
+        if all((isinstance(x, ast.Slice) and x.lower is None and x.upper is None and x.step is None)
+               or (isinstance(x, ast.Constant) and x.value is None) or norm(x) in ('np.newaxis', 'numpy.newaxis') for x in sl):
+            # c[:, np.newaxis] * D scales the rows of D by c, which is diag(c) @ D: the same product in this abstraction
+            return self.ev(n.value)
         return super().subscript(n)
 
     def call(self, n):
         f = dotted(n.func)
         if f in ('np.diag', 'numpy.diag') and len(n.args) == 1:
             return self.ev(n.args[0])
+        if f in ('np.zeros_like', 'numpy.zeros_like', 'np.zeros', 'numpy.zeros'):
+            return C(0)
+        if f in ('np.ones_like', 'numpy.ones_like', 'np.ones', 'numpy.ones'):
+            return C(1)
         if f in ('np.full', 'numpy.full') and len(n.args) == 2:
             return self.ev(n.args[1])
         return super().call(n)
@@ -345,26 +355,160 @@ def _spacing_axes(run, mi):
             run.undecided('C20-R1a', nm, 'no axis-tagged quantity found in its definition')
 
 
+def _inputs_kept(run, mi):
+    """R8: neither function changes the arrays it is given (the operator matrices handed to calculate_admt are reused for the next
+    call); the operator matrices are floating point whatever the type of the grid coordinates (their entries are +-1/2, +-1/4)."""
+    from ._purity import mutations, aliases
+    run.describe('C20-R8', 'inputs are not modified in place; operator matrices are not typed after an input array')
+    for name in ('generate_derivative_operators', 'calculate_admt'):
+        fn = mi.functions.get(name)
+        if fn is None:
+            continue
+        run.subject('C20-R8')
+        bad = mutations(fn)
+        for st, text in bad:
+            run.fail('C20-R8', 'cherab.tools.inversions.admt_utils|%s|mutates-argument' % name, FILE, st.lineno,
+                     "%s changes data it was given in place (%s): the caller's operators are overwritten, so the next call with the same "
+                     "operators does not return the operator of its arguments" % (name, text))
+        ps, alias, rebound = aliases(fn)
+        typed = []
+        # result matrices of calculate_admt may follow the operators they combine; only the grid must not type the operators
+        for c in (ast.walk(fn) if name == 'generate_derivative_operators' else ()):
+            if isinstance(c, ast.Call) and dotted(c.func) in ('np.zeros', 'np.empty', 'np.ones', 'np.full', 'numpy.zeros', 'numpy.empty'):
+                for k in c.keywords:
+                    if k.arg == 'dtype' and any(isinstance(x, ast.Name) and x.id in alias for x in ast.walk(k.value)):
+                        typed.append((c, norm(k.value)))
+                    elif k.arg == 'dtype' and norm(k.value) in ('int', 'np.int64', 'np.int32', 'np.intp', "'int'", "'i'", 'bool'):
+                        typed.append((c, norm(k.value)))
+            if isinstance(c, ast.Call) and dotted(c.func) in ('np.zeros_like', 'np.empty_like', 'np.ones_like', 'np.full_like') and c.args \
+                    and not any(k.arg == 'dtype' for k in c.keywords) and isinstance(c.args[0], ast.Name) and c.args[0].id in alias - rebound:
+                typed.append((c, norm(c)))
+        for c, text in typed:
+            run.fail('C20-R8', 'cherab.tools.inversions.admt_utils|%s|typed-after-input' % name, FILE, c.lineno,
+                     "%s allocates a result matrix typed after an input (%s): for integer-typed grid coordinates the stencil weights +-1/2 and "
+                     "+-1/4 are truncated to zero" % (name, text[:50]))
+        if not bad and not typed:
+            run.ok('C20-R8', name, 'no in-place change of an argument; result matrices have the default floating type')
+
+
+def _admt_theory(run, fn, pinned, K):
+    """R7: on every returning path the assembled operator is the theory operator sqrt(dx dy) * (cx Dx + cy Dy + cxx Dxx + 2 cxy Dxy +
+    cyy Dyy) with the coefficients of div(D grad f), D = Dperp n n^T + Dpar t t^T, n = grad psi / |grad psi| -- either identically in
+    the diffusivities, or for Dpar = 1, Dperp = 1 / anisotropy under what the path's own conditions fix (a special-cased anisotropy)."""
+    run.describe('C20-R7', 'every returning path of calculate_admt yields the theory operator (under the conditions of that path)')
+    psi = 'psi_at_voxels'
+    ren = {'Dx(%s)' % psi: L('px'), 'Dy(%s)' % psi: L('py'), 'Dxx(%s)' % psi: L('pxx'), 'Dxy(%s)' % psi: L('pxy'), 'Dyy(%s)' % psi: L('pyy'),
+           'Dx(Dperp)': L('dPx'), 'Dy(Dperp)': L('dPy'), 'Dx(Dpar)': L('dLx'), 'Dy(Dpar)': L('dLy'),
+           'voxel_radii': L('R'), 'Dperp': L('P'), 'Dpar': L('Lp')}
+    P, Lp, px, py = L('P'), L('Lp'), L('px'), L('py')
+    n2 = px * px + py * py
+    c = {'cxx': (P * px ** 2 + Lp * py ** 2) / n2, 'cyy': (P * py ** 2 + Lp * px ** 2) / n2, 'cxy': (P - Lp) * px * py / n2}
+    dxr = {'px': L('pxx'), 'py': L('pxy'), 'P': L('dPx'), 'Lp': L('dLx')}
+    dyr = {'px': L('pxy'), 'py': L('pyy'), 'P': L('dPy'), 'Lp': L('dLy')}
+    try:
+        c['cx'] = deriv(c['cxx'], dxr) + deriv(c['cxy'], dyr) + c['cxx'] / L('R')
+        c['cy'] = deriv(c['cxy'], dxr) + deriv(c['cyy'], dyr) + c['cxy'] / L('R')
+    except Undecided as e:
+        run.subject('C20-R7')
+        run.undecided('C20-R7', 'theory operator', str(e))
+        return
+    scale = SymEval().sqrt(L('dx') * L('dy'))
+    want = (c['cx'] * L('OP:Dx') + c['cy'] * L('OP:Dy') + c['cxx'] * L('OP:Dxx') + C(2) * c['cxy'] * L('OP:Dxy') + c['cyy'] * L('OP:Dyy')) * scale
+    actual = {'P': C(1) / L('anisotropy'), 'Lp': C(1), 'dPx': C(0), 'dPy': C(0), 'dLx': C(0), 'dLy': C(0)}
+    for p, env in pinned:
+        run.subject('C20-R7')
+        cond = ' and '.join('%s%s' % ('' if t else 'not ', k) for k, t in p.decisions) or 'unconditional'
+        got = p.returned.subst(ren)
+        if any('?' in l for l in got.leaves()) or any(l.startswith('matmul(') for l in got.leaves()):
+            run.undecided('C20-R7', 'path [%s]' % cond[:60], 'returned operator has parts that were not interpreted')
+            continue
+        if got.eq(want):
+            run.ok('C20-R7', 'path [%s]' % cond[:60], 'identically in Dpar, Dperp and the flux derivatives')
+            continue
+        sub = _path_subst(p)
+        g2, w2 = got.subst(actual).subst(sub), want.subst(actual).subst(sub)
+        if g2.eq(w2):
+            run.ok('C20-R7', 'path [%s]' % cond[:60], 'for Dpar = 1, Dperp = 1 / anisotropy under %s' % (sub or 'no condition'))
+        else:
+            miss = [op for op in ('Dx', 'Dy', 'Dxx', 'Dxy', 'Dyy') if not _coeff(g2, op).eq(_coeff(w2, op))]
+            run.fail('C20-R7', K + 'path|' + cond[:40], FILE, fn.lineno,
+                     'on the path [%s] the returned operator is not the diffusion operator: the coefficient(s) of %s differ from '
+                     'div(D grad f) (e.g. the cylindrical term cxx/R on Dx)' % (cond[:80], miss or 'the assembled terms'))
+
+
+def _coeff(v, op):
+    try:
+        return coeff_of(v, 'OP:' + op)
+    except Undecided:
+        return L('?coefficient')
+
+
+def _admt_paths(fn, pinned=()):
+    """[(Path, final environment)] of calculate_admt, one per combination of its branch decisions; names in `pinned` stay symbols."""
+    from ..pathinterp import PathInterp
+
+    class E(AdmtEval):
+        def name(self, n):
+            if n.id in pinned:
+                return L(n.id)
+            return super().name(n)
+    out = []
+    for p in PathInterp(fn, sinks=(), evaluator=E, store_prefixes=('',), max_paths=64).run():
+        if p.returned is None or p.returned.key() == 'raise':
+            continue
+        env = {}
+        for key, val, tags, st, aug in p.stores:
+            env[key] = val
+        out.append((p, env))
+    return out
+
+
+def _path_subst(p):
+    """what the path's decisions fix: 'name == constant' taken true -> {name: constant}"""
+    sub = {}
+    for text, taken in p.decisions:
+        try:
+            t = ast.parse(text, mode='eval').body
+        except SyntaxError:
+            continue
+        if taken and isinstance(t, ast.Compare) and len(t.ops) == 1 and isinstance(t.ops[0], ast.Eq):
+            l, r = t.left, t.comparators[0]
+            if isinstance(l, ast.Constant):
+                l, r = r, l
+            if isinstance(l, ast.Name) and isinstance(r, ast.Constant) and isinstance(r.value, (int, float)) and float(r.value) == int(r.value):
+                sub[l.id] = C(int(r.value))
+    return sub
+
+
 def _admt(run, prog, mi):
     fn = mi.functions.get('calculate_admt')
     if fn is None:
         raise AnalysisError('anchored function vanished: calculate_admt')
     K = 'cherab.tools.inversions.admt_utils|calculate_admt|'
-    ev = AdmtEval()
-    final = None
-    for st in fn.body:
-        if isinstance(st, ast.Expr):
-            continue
-        if isinstance(st, ast.Assign) and len(st.targets) == 1 and isinstance(st.targets[0], ast.Name):
-            ev.env[st.targets[0].id] = ev.ev(st.value)
-        elif isinstance(st, ast.AugAssign) and isinstance(st.target, ast.Name) and isinstance(st.op, ast.Mult):
-            ev.env[st.target.id] = ev.env[st.target.id] * ev.ev(st.value)
-        elif isinstance(st, ast.Return):
-            final = ev.ev(st.value)
-        else:
-            raise AnalysisError('cannot interpret statement in calculate_admt: %s' % norm(st)[:80])
-    if final is None:
+    COEF = ('cx', 'cy', 'cxx', 'cxy', 'cyy')
+    try:
+        plain = _admt_paths(fn)
+        pinned = _admt_paths(fn, ('Dpar', 'Dperp'))
+    except Exception as e:      # a statement form the interpreter does not model
+        for r in ('C20-R3', 'C20-R4', 'C20-R5', 'C20-R6', 'C20-R7'):
+            run.subject(r)
+            run.undecided(r, 'calculate_admt', 'body not interpreted: %s' % str(e)[:80])
+        return
+    if not plain:
         raise AnalysisError('calculate_admt has no return value')
+    _admt_theory(run, fn, pinned, K)
+    main = [(p, env) for p, env in plain if all(k in env for k in COEF + ('Dpar', 'Dperp'))]
+    main2 = [(p, env) for p, env in pinned if all(k in env for k in COEF)]
+    if not main or not main2:
+        for r in ('C20-R3', 'C20-R4', 'C20-R5', 'C20-R6'):
+            run.subject(r)
+            run.undecided(r, 'calculate_admt', 'the coefficient locals cx, cy, cxx, cxy, cyy / Dpar, Dperp are not all assigned on one path')
+        return
+    ev = type('Env', (), {})()
+    ev.env = main[0][1]
+    ev2 = AdmtEval()
+    ev2.env = main2[0][1]
+    final2 = main2[0][0].returned
     # canonical jet names
     psi = 'psi_at_voxels'
     ren = {'Dx(%s)' % psi: L('px'), 'Dy(%s)' % psi: L('py'), 'Dxx(%s)' % psi: L('pxx'), 'Dxy(%s)' % psi: L('pxy'),
@@ -380,19 +524,6 @@ def _admt(run, prog, mi):
     else:
         run.fail('C20-R6', K + 'diffusivities', FILE, fn.lineno,
                  'Dpar=%s, Dperp=%s; expected 1 and 1/anisotropy' % (dpar, dperp))
-    # re-evaluate with Dpar, Dperp (and their derivatives) as independent symbols: general anisotropic tensor
-    ev2 = AdmtEval()
-    for st in fn.body:
-        if isinstance(st, ast.Assign) and len(st.targets) == 1 and isinstance(st.targets[0], ast.Name):
-            name = st.targets[0].id
-            if name in ('Dpar', 'Dperp'):
-                ev2.env[name] = L(name)
-            else:
-                ev2.env[name] = ev2.ev(st.value)
-        elif isinstance(st, ast.AugAssign) and isinstance(st.target, ast.Name):
-            ev2.env[st.target.id] = ev2.env[st.target.id] * ev2.ev(st.value)
-        elif isinstance(st, ast.Return):
-            final2 = ev2.ev(st.value)
     ren2 = dict(ren)
     ren2.update({'Dx(Dperp)': L('dPx'), 'Dy(Dperp)': L('dPy'), 'Dx(Dpar)': L('dLx'), 'Dy(Dpar)': L('dLy'),
                  'voxel_radii': L('R'), 'Dperp': L('P'), 'Dpar': L('Lp')})
@@ -473,6 +604,9 @@ def _admt(run, prog, mi):
 
 
 MUTANTS = [
+    dict(name='operators-scaled-in-place', file=FILE, find="    cx = np.diag(cx)\n", replace="    Dx *= cx[:, np.newaxis]\n    cx = np.diag(np.ones_like(cx))\n", expect='C20-R8'),
+    dict(name='operators-typed-after-the-grid', file=FILE, find="    Dx = np.zeros((num_cells, num_cells))\n", replace="    Dx = np.zeros((num_cells, num_cells), dtype=voxel_vertices.dtype)\n", expect='C20-R8'),
+    dict(name='isotropic-fast-path', file=FILE, find="    cx = np.diag(cx)\n", replace="    if anisotropy == 1:\n        return (Dxx + Dyy) * np.sqrt(dx * dy)\n    cx = np.diag(cx)\n", expect='C20-R7'),
     dict(name='dx-from-y-differences', file=FILE, find="    dx = cell_sizes[:, 0]\n    dy = cell_sizes[:, 1]", replace="    dx = cell_sizes[:, 1]\n    dy = cell_sizes[:, 0]", expect='C20-R1a'),
     dict(name='stencil-coefficient', file=FILE, find="            Dx[ith_cell, n_left] = -1 / 2", replace="            Dx[ith_cell, n_left] = -1 / 4", expect='C20-R1'),
     dict(name='stencil-neighbour-flipped', file=FILE, find="n_below = grid_index_2d_to_1d_map[ix, iy + 1]", replace="n_below = grid_index_2d_to_1d_map[ix, iy - 1]", expect='C20-R1'),
@@ -490,6 +624,9 @@ MUTANTS = [
     dict(name='ddiff-derivative-direction', file=FILE, find="dpsidx**2 * ddperpdx + dpsidy**2 * ddpardx", replace="dpsidx**2 * ddperpdy + dpsidy**2 * ddpardx", expect='C20-R5'),
 ]
 TWINS = [
+    dict(name='assembly-by-row-scaling', file=FILE,
+         find="    cx = np.diag(cx)\n    cy = np.diag(cy)\n    cxx = np.diag(cxx)\n    cyy = np.diag(cyy)\n    cxy = np.diag(cxy)\n    admt_operator = cx @ Dx + cy @ Dy + cxx @ Dxx + 2 * cxy @ Dxy + cyy @ Dyy\n",
+         replace="    admt_operator = np.zeros_like(Dxx)\n    for coeff, operator in ((cx, Dx), (cy, Dy), (cxx, Dxx), (2 * cxy, Dxy), (cyy, Dyy)):\n        admt_operator += operator * coeff[:, np.newaxis]\n"),
     dict(name='terms-reordered', file=FILE, find="cxx = (Dperp * (dpsidx)**2 + Dpar * (dpsidy)**2) / normalisation", replace="cxx = (Dpar * dpsidy * dpsidy + (dpsidx)**2 * Dperp) / normalisation"),
     dict(name='assembly-reordered', file=FILE, find="admt_operator = cx @ Dx + cy @ Dy + cxx @ Dxx + 2 * cxy @ Dxy + cyy @ Dyy", replace="admt_operator = cyy @ Dyy + cx @ Dx + cy @ Dy + cxx @ Dxx + cxy @ Dxy * 2"),
     dict(name='half-as-decimal', file=FILE, find="            Dx[ith_cell, n_left] = -1 / 2", replace="            Dx[ith_cell, n_left] = -0.5"),
